@@ -109,7 +109,7 @@ pub fn sheet_text(sheet: &Value, r: &mut Rng, v: &Vary) -> String {
         for (k, d) in decls.iter().enumerate() {
             if v.unknown_props && r.chance(1, 3) { s.push_str(*r.pick(&["margin: 0 auto; ", "font: 12px/1.5 \"A B\", serif; ", "-webkit-x: y; ", "width: calc(100% - 2px); ",
                                                                          "font-family: \"Bob's Font\"; ", "quotes: '\"' '\"'; ", "x-y: \"a;b}c\"; ", "x-y: 'it''s'; ", "--x-y: { a ; b }; ", "x-y: [ { } ] ( ; ); ",
-                                                                         "background-image: url(data:image/png;base64,AAAA); ", "x-y: f(a;b) g( c ; d ); ", "src: local(x;y), url(\"a;b\"); "])); }
+                                                                         "--accent: #00f; ", "--v: 1; ", "background-image: url(data:image/png;base64,AAAA); ", "x-y: f(a;b) g( c ; d ); ", "src: local(x;y), url(\"a;b\"); "])); }
             s.push_str(&decl_text(d, r, v.on));
             let last = k + 1 == decls.len();
             if last { if v.double_semi { s.push_str(";;"); } else if !v.drop_semi { s.push(';'); } }
